@@ -716,7 +716,7 @@ def action_fields_ok(sig, obj, kind, addr, spec):
 class LoadActionListBounded(Contract):
     qualname = ACT + "load_action_list"
     unbounded = False
-    tags = {"": ("C11", "C05", "C12", "C10", "C19", "C07")}
+    tags = {"": ("C11", "C05", "C12", "C10", "C19", "C07", "C01")}
 
     def variants(self):
         return [f"{e}/{p}" for e in range(len(E_SHAPES)) for p in range(len(P_SHAPES))]
